@@ -51,27 +51,56 @@ Proof. exists [([x61], 1); ([x62], 2)], [([x62], 2); ([x61], 1)]. split; [apply 
 Section PoolP.
 Variable val : Type.
 Notation pstep := (pstep val). Notation pstep_fresh := (pstep_fresh val). Notation pool_clean := (pool_clean val).
+Notation pview := (pview val).
 Lemma pstep_clean s o : pool_clean s -> pool_clean (pstep s o).
 Proof.
-  unfold MapOrder.pool_clean. destruct s as [st pl]. cbn. intro H. destruct o; cbn.
+  unfold MapOrder.pool_clean. destruct s as [st pl out]. cbn. intro H. destruct o as [|id m| |k v]; cbn.
   - destruct pl as [|m r]; cbn; [constructor|now inversion H].
-  - destruct st; cbn; [assumption|]. constructor; auto.
-  - destruct st; cbn; assumption.
+  - exact H.
+  - destruct st as [|[m k] r]; cbn; [assumption|]. destruct (is_pool k && nonempty r && nonempty m); [constructor; auto|assumption].
+  - destruct st as [|[m kd] r]; cbn; assumption.
 Qed.
-Lemma pstep_same s o : pool_clean s -> pstack val (pstep s o) = pstep_fresh (pstack val s) o.
+Lemma pstep_same s o : pool_clean s -> pview (pstep s o) = pstep_fresh (pview s) o.
 Proof.
-  unfold MapOrder.pool_clean. destruct s as [st pl]. cbn. intro H. destruct o; cbn.
+  unfold MapOrder.pool_clean, MapOrder.pview. destruct s as [st pl out]. cbn. intro H. destruct o as [|id m| |k v]; cbn.
   - destruct pl as [|m r]; cbn; [reflexivity|]. inversion H. now subst.
-  - destruct st; reflexivity.
-  - destruct st; reflexivity.
+  - reflexivity.
+  - destruct st as [|[m k] r]; reflexivity.
+  - destruct st as [|[m kd] r]; reflexivity.
 Qed.
-(* over ANY history of pushes, sets and pops a long-used engine's stack is what fresh maps would give *)
+(* over ANY history of pushes (pooled or caller-owned), sets and pops, the stack of a long-used engine
+   AND every map handed back to a caller are what brand-new maps would give *)
 Theorem pooled_equals_fresh ops : forall s, pool_clean s ->
-  pstack val (fold_left pstep ops s) = fold_left pstep_fresh ops (pstack val s).
+  pview (fold_left pstep ops s) = fold_left pstep_fresh ops (pview s).
 Proof.
   induction ops as [|o r IH]; intros s H; cbn; [reflexivity|].
   rewrite IH by now apply pstep_clean. now rewrite pstep_same.
 Qed.
 Theorem pool_stays_clean ops : forall s, pool_clean s -> pool_clean (fold_left pstep ops s).
 Proof. induction ops as [|o r IH]; intros s H; cbn; [exact H|]. apply IH. now apply pstep_clean. Qed.
+(* hence no lookup, after any history, can tell the pool from brand-new maps *)
+Corollary pooled_lookup_equals_fresh ops s k : pool_clean s ->
+  plookup val (pstack val (fold_left pstep ops s)) k = plookup val (fstack val (fold_left pstep_fresh ops (pview s))) k.
+Proof. intro H. now rewrite <- (pooled_equals_fresh ops s H). Qed.
+(* a caller's map is released exactly once per pop of it, with its own bindings below whatever was set
+   while it was on top: Pop never clears it *)
+Lemma released_own id m out : released val (KOwn id) m out = (id, m) :: out.
+Proof. reflexivity. Qed.
+Theorem own_map_kept id m sets : forall s,
+  let s1 := fold_left pstep (map (fun kv => PSet val (fst kv) (snd kv)) sets) (pstep s (PPushOwn val id m)) in
+  pout val (pstep s1 (PPop val)) = (id, rev sets ++ m) :: pout val s.
+Proof.
+  intro s. cbn zeta.
+  assert (G : forall sets m0 st pl out, 
+     fold_left pstep (map (fun kv => PSet val (fst kv) (snd kv)) sets) {| pstack := (m0, KOwn id) :: st; ppool := pl; pout := out |}
+     = {| pstack := (rev sets ++ m0, KOwn id) :: st; ppool := pl; pout := out |}).
+  { clear. induction sets as [|[k v] r IH]; intros m0 st pl out; cbn; [reflexivity|].
+    rewrite IH. now rewrite <- app_assoc. }
+  destruct s as [st pl out]. cbn. rewrite G. reflexivity.
+Qed.
 End PoolP.
+(* the refuted twin: a Pop that does not clear lets a later, unrelated scope see a stale variable *)
+Theorem dirty_pool_leaks : exists ops k,
+  plookup nat (pstack nat (fold_left (pstep_dirty nat) ops {| pstack := [([], KRoot)]; ppool := []; pout := [] |})) k
+  <> plookup nat (fstack nat (fold_left (pstep_fresh nat) ops {| fstack := [([], KRoot)]; fout := [] |})) k.
+Proof. exists [PPush nat; PSet nat [x61] 1; PPop nat; PPush nat], [x61]. vm_compute. discriminate. Qed.
